@@ -6,6 +6,7 @@
   * `ADD COLUMN c` appends, `FIRST` prepends, `AFTER p` inserts right after `p`; each needs the table, `p`, and `c` absent;
   * `DROP COLUMN c` needs `c`; it removes `c` from every index of the table, deletes an
     index left without columns, every foreign key on `c`, and `c` from the primary key;
+  * `ALTER COLUMN … TYPE / SET DEFAULT / DROP NOT NULL` (Postgres) change that one aspect of an existing column;
   * `MODIFY COLUMN` replaces type and options and keeps the position; declaring PRIMARY KEY on a table that already
     has one is ill-formed, omitting it does not drop the key;
   * the primary key is one list of columns whether declared inline or by `ADD PRIMARY KEY`;
@@ -201,6 +202,28 @@ def exec (refCheck : Bool) (db : DB) : Stmt → Option DB
       else if !tb.hasCol c then none
       else some (db.replace { tb with cols := tb.cols.map (fun x =>
         if x.name == c then { x with opts := x.opts.filter (fun o => match o with | .comment _ => false | _ => true) ++ [.comment text] } else x) })
+
+  -- the Postgres spellings of MODIFY COLUMN, one aspect at a time: the column must exist, its position is kept
+  | .alterType t c typ =>
+    match db.find t with
+    | none => none
+    | some tb =>
+      if !tb.hasCol c then none
+      else some (db.replace { tb with cols := tb.cols.map (fun x => if x.name == c then { x with typ := typ } else x) })
+  | .setDefault t c d =>
+    match db.find t with
+    | none => none
+    | some tb =>
+      if !tb.hasCol c then none
+      else some (db.replace { tb with cols := tb.cols.map (fun x =>
+        if x.name == c then { x with opts := x.opts.filter (fun o => match o with | .default _ => false | _ => true) ++ [.default (defaultCanon d)] } else x) })
+  | .dropNotNull t c =>
+    match db.find t with
+    | none => none
+    | some tb =>
+      if !tb.hasCol c then none
+      else some (db.replace { tb with cols := tb.cols.map (fun x =>
+        if x.name == c then { x with opts := x.opts.filter (· != .notNull) } else x) })
 
 def execAll (refCheck : Bool) (db : DB) : List Stmt → Option DB
   | [] => some db
